@@ -273,6 +273,7 @@ func drawCfg(rt *rapid.T, kind string, wide bool) Cfg {
 		c.Identity = rp.Pick(rt, "identity", "wildcard", "wildcard", "pinned", "other")
 		c.Revocation = rp.Pick(rt, "revocation", "ok", "ok", "revoked", "unknown", "error")
 		c.RevWiring = rp.Pick(rt, "revWiring", "", "", "", "codesigning-only", "timestamping-only", "client-only", "none")
+		c.BadDoc = rp.Pick(rt, "badDoc", "", "", "", "", "", "", "blob-level", "blob-override", "oci-level")
 	}
 	if c.Level != "skip" {
 		switch rapid.IntRange(0, 5).Draw(rt, "override") {
